@@ -326,7 +326,9 @@ func LowerWithWarnings(ast *parser.Module, source string) (*LowerResult, error) 
 	// Build GlobalExpressions arena from Constants, Overrides, and GlobalVariable inits.
 	// This mirrors Rust naga's Module.global_expressions which stores init expressions
 	// for all module-scope entities.
-	l.buildGlobalExpressions()
+	if err := l.buildGlobalExpressions(); err != nil {
+		return nil, err
+	}
 
 	return &LowerResult{
 		Module:   l.module,
@@ -16156,7 +16158,7 @@ func (l *Lowerer) lowerRayQueryPointer(arg parser.Expr, target *[]ir.Statement) 
 // 1. Override init expressions (created during override lowering)
 // 2. GlobalVariable init expressions
 // 3. Constant init expressions
-func (l *Lowerer) buildGlobalExpressions() {
+func (l *Lowerer) buildGlobalExpressions() error {
 	m := l.module
 
 	// Map from ConstantHandle to ExpressionHandle in GlobalExpressions.
@@ -16252,11 +16254,15 @@ func (l *Lowerer) buildGlobalExpressions() {
 			gv.InitExpr = &h
 		} else if astInit, ok := l.globalVarInitASTs[gvHandle]; ok {
 			// Constructor init (struct, vector, etc.) stored as AST.
-			if h, ok := l.buildGlobalExprFromAST(astInit, gv.Type, addExpr); ok {
-				gv.InitExpr = &h
+			h, ok := l.buildGlobalExprFromAST(astInit, gv.Type, addExpr)
+			if !ok {
+				// Leaving InitExpr unset would start the variable at zero.
+				return fmt.Errorf("global var %s: unsupported initializer expression", gv.Name)
 			}
+			gv.InitExpr = &h
 		}
 	}
+	return nil
 }
 
 // buildGlobalExprFromAST recursively converts an AST expression into global expressions.
@@ -16408,6 +16414,34 @@ func (l *Lowerer) buildGlobalExprFor(
 			Type:       typeH,
 			Components: components,
 		}), true
+
+	case *parser.BinaryExpr:
+		// A scalar constant expression (K * 2) as a constructor argument.
+		if expectedScalar == nil {
+			return 0, false
+		}
+		var sv ir.ScalarValue
+		switch expectedScalar.Kind {
+		case ir.ScalarSint, ir.ScalarUint:
+			_, val, err := l.evalConstantIntExpr(e)
+			if err != nil {
+				return 0, false
+			}
+			sv = ir.ScalarValue{Kind: expectedScalar.Kind, Bits: uint64(val)}
+		case ir.ScalarFloat:
+			val, err := l.evalConstantFloatExpr(e)
+			if err != nil || expectedScalar.Width != 4 {
+				return 0, false
+			}
+			sv = ir.ScalarValue{Kind: ir.ScalarFloat, Bits: uint64(math.Float32bits(float32(val)))}
+		default:
+			return 0, false
+		}
+		lit := literalForScalar(sv, *expectedScalar)
+		if lit == nil {
+			return 0, false
+		}
+		return addExpr(ir.Literal{Value: lit}), true
 
 	case *parser.UnaryExpr:
 		if e.Op == parser.TokenMinus {
